@@ -55,8 +55,11 @@ inductive Item where
   | ret (o : Option TyRef)
   /-- a nested block (`if (..) { .. }`): `push_scope` .. `pop_scope` -/
   | blk (b : Items)
-  /-- a struct template with the given methods is named for the first time, with the given argument -/
-  | st (arg : TyRef) (ms : Methods)
+  /-- a struct template with the given methods is named for the first time, with the given argument.  `decl`: the statement is
+      a declaration `B<A> x;` — `StatementKind::AmbiguousDeclarationOrExpression`: `parse_localtype(..).is_ok()` decides; when
+      the type (hence the instantiation) fails the statement is re-read as the expression `B < A > x` and the error reported is
+      that one's (`ExpectedExpressionReceivedType`: `B` names a type) -/
+  | st (decl : Bool) (arg : TyRef) (ms : Methods)
   /-- a function template `template<typename T> rt name(T x) { b }` is called for the first time with `T := arg` -/
   | ft (name : String) (rt : TyRef) (arg : TyRef) (b : Items)
 inductive Items where
@@ -93,6 +96,8 @@ inductive Err where
   | panic (msg : String)
   /-- `T` outside a template: `UnknownType` -/
   | unknownTypeName
+  /-- `TyperError::ExpectedExpressionReceivedType`: the expression reading of a declaration whose type was refused -/
+  | expectedExpression
   deriving DecidableEq, Repr
 
 /-- `get_current_return_type`'s `search_scopes(|s| s.function_return_type)` -/
@@ -142,15 +147,17 @@ def elabItem (owner : String) (chain : List Frame) : Item → Except Err (List F
       match popScope c with
       | .error e => .error e
       | .ok c' => .ok (c', evs)
-  | .st arg ms =>
+  | .st decl arg ms =>
     -- the template argument is parsed at the place of use
     match resolve chain arg with
-    | none => .error .unknownTypeName
+    | none => .error (if decl then .expectedExpression else .unknownTypeName)
     | some a =>
       -- ensure_struct_template: `let current_scope = self.current_scope; self.current_scope = struct_template_data.scope;`
       -- instantiate_struct_template: push_scope_with_name, register_typedef(T), pop_scope; parse_struct_internal: revisit_scope
       match elabMethods ({ targ := some a } :: rootChain) ms with
-      | .error e => .error e
+      -- a panic is not an `Err(..)`; any error of the declaration reading is replaced by the expression reading's
+      | .error (.panic m) => .error (.panic m)
+      | .error e => .error (if decl then .expectedExpression else e)
       | .ok (c, evs) =>
         -- `context.pop_scope()` at the end of parse_struct_internal
         match popScope c with
@@ -237,7 +244,7 @@ mutual
 def namesItem : Item → List String
   | .ret _ => []
   | .blk b => namesItems b
-  | .st _ ms => namesMethods ms
+  | .st _ _ ms => namesMethods ms
   | .ft name _ _ b => name :: namesItems b
 def namesItems : Items → List String
   | .nil => []
